@@ -183,17 +183,21 @@ var subtopOps = map[string]stateOp{
 // (0, from, to, amount) out of the module account the funder literal names, a hook (1 win / 2 loss / 3 refund / 4 fee refund, account, x, y).
 // Whether a payment can be made is decided where the effects are applied (as in the model); here it cannot fail.
 var settleOps = map[string]stateOp{
-	"refund":                    {kind: "emitpay", field: []string{"Effects"}, args: []string{"OrderBookLiquidityFunder=-1", "HouseFeeCollectorFunder=-3", "BetFeeCollectorFunder=-2"}},
-	"hooks.AfterHouseWin":       {kind: "emithook", field: []string{"Effects", "1"}},
-	"hooks.AfterHouseLoss":      {kind: "emithook", field: []string{"Effects", "2"}},
-	"hooks.AfterHouseRefund":    {kind: "emithook", field: []string{"Effects", "3"}},
-	"hooks.AfterHouseFeeRefund": {kind: "emithook", field: []string{"Effects", "4"}},
-	"SetOrderBookParticipation": {kind: "set", field: []string{"Stored"}},
+	"refund":                       {kind: "emitpay", field: []string{"Effects"}, args: []string{"OrderBookLiquidityFunder=-1", "HouseFeeCollectorFunder=-3", "BetFeeCollectorFunder=-2"}},
+	"hooks.AfterHouseWin":          {kind: "emithook", field: []string{"Effects", "1"}},
+	"hooks.AfterHouseLoss":         {kind: "emithook", field: []string{"Effects", "2"}},
+	"hooks.AfterHouseRefund":       {kind: "emithook", field: []string{"Effects", "3"}},
+	"hooks.AfterHouseFeeRefund":    {kind: "emithook", field: []string{"Effects", "4"}},
+	"SetOrderBookParticipation":    {kind: "upsert", field: []string{"Parts", "Index"}},
+	"GetParticipationsOfOrderBook": {kind: "getok", field: []string{"Parts"}, args: []string{"orderBookUID"}},
+	"settleParticipation":          {kind: "callerr", field: []string{"K_settle_settleParticipation"}},
 }
 
 var statefulList = []statefulSpec{{
 	recv: "Keeper", pkg: "x/orderbook/keeper", name: "settleParticipation", state: "settle", keeperPkg: "x/orderbook/keeper", ops: settleOps,
-	fields: []stateField{{"Effects", "list (Z * Z * Z * Z)"}, {"Stored", "G_OrderBookParticipation"}},
+	fields: []stateField{{"Effects", "list (Z * Z * Z * Z)"}, {"Parts", "list G_OrderBookParticipation"}},
+}, {
+	recv: "Keeper", pkg: "x/orderbook/keeper", name: "batchSettlementOfParticipation", state: "settle", keeperPkg: "x/orderbook/keeper", ops: settleOps,
 }, {
 	recv: "Keeper", pkg: "x/subaccount/keeper", name: "TopUp", state: "subtop", keeperPkg: "x/subaccount/keeper", ops: subtopOps, ctxTime: "Now",
 	fields: []stateField{{"Exists", "bool"}, {"Summary", "G_AccountSummary"}, {"SummaryExists", "bool"}, {"Locks", "list G_LockedBalance"},
@@ -621,6 +625,16 @@ func (c *fctx) applyStateOp(op stateOp, args []string, rest string) string {
 		return out
 	case "nop":
 		return rest
+	case "upsert":
+		el := ""
+		for _, f := range c.stFields {
+			if f.name == op.field[0] {
+				el = strings.TrimPrefix(f.typ, "list ")
+			}
+		}
+		v := args[len(args)-1]
+		return fmt.Sprintf("let g_st := set_%s_%s g_st (kupd (fun g__x => %s_%s g__x =? %s_%s %s) %s (%s_%s g_st)) in\n  %s",
+			S, op.field[0], el, op.field[1], el, op.field[1], v, v, S, op.field[0], rest)
 	case "upsertall":
 		el := ""
 		for _, f := range c.stFields {
@@ -1158,6 +1172,13 @@ func (c *fctx) ret(s *ast.ReturnStmt) string {
 		case "val":
 			if len(s.Results) == 1 {
 				return fmt.Sprintf("(g_st, %s)", c.expr(s.Results[0]))
+			}
+		case "val2err":
+			if len(s.Results) == 3 {
+				if isNilIdent(s.Results[2]) {
+					return fmt.Sprintf("Some (g_st, (%s, %s))", c.expr(s.Results[0]), c.expr(s.Results[1]))
+				}
+				return "None"
 			}
 		case "valerr":
 			// a message handler: the response is not modelled, the state is the result
@@ -1741,6 +1762,31 @@ func (c *fctx) stmts(list []ast.Stmt) string {
 				}
 			}
 		}
+		// err = k.F(...) where F is another stateful kernel returning an error: the new state, or the error continuation
+		if len(s.Lhs) == 1 && len(s.Rhs) == 1 {
+			if call, ok := s.Rhs[0].(*ast.CallExpr); ok {
+				if f, ok := call.Fun.(*ast.SelectorExpr); ok {
+					if op, ok := c.stateOpOf(f); ok && op.kind == "callerr" {
+						if id, ok := s.Lhs[0].(*ast.Ident); ok {
+							if c.nilErr == nil {
+								c.nilErr = map[string]bool{}
+							}
+							if c.nonNil == nil {
+								c.nonNil = map[string]bool{}
+							}
+							callS := c.expr(call)
+							c.nonNil[id.Name] = true
+							errB := rest()
+							delete(c.nonNil, id.Name)
+							c.nilErr[id.Name] = true
+							okB := rest()
+							delete(c.nilErr, id.Name)
+							return fmt.Sprintf("match %s with\n  | Some g_st => %s\n  | None => %s\n  end", callS, okB, errB)
+						}
+					}
+				}
+			}
+		}
 		// err := k.Op(...) where Op is the fallible transfer: both continuations
 		if len(s.Lhs) == 1 && len(s.Rhs) == 1 {
 			if call, ok := s.Rhs[0].(*ast.CallExpr); ok {
@@ -2193,6 +2239,8 @@ func analyseKernels(w *world) string {
 			c.results = "val"
 		case sig.Results().Len() == 2 && sig.Results().At(1).Type().String() == "error":
 			c.results = "valerr"
+		case sig.Results().Len() == 3 && sig.Results().At(2).Type().String() == "error":
+			c.results = "val2err"
 		default:
 			c.fail("a stateful kernel returns nothing, an error, a value (declared) or a response and an error")
 		}
@@ -2214,6 +2262,12 @@ func analyseKernels(w *world) string {
 			}
 		}
 		body := c.stmts(fd.decl.Body.List)
+		for j := sig.Results().Len() - 1; j >= 0; j-- {
+			rv := sig.Results().At(j)
+			if rv.Name() != "" && rv.Name() != "_" && rv.Type().String() != "error" {
+				body = fmt.Sprintf("let %s := %s in\n  %s", ident(rv.Name()), zeroOf(rv.Type()), body)
+			}
+		}
 		pos := w.fset.Position(fd.decl.Pos())
 		if c.bad != "" {
 			k.errs = append(k.errs, fmt.Sprintf("%s: %s", sp.name, c.bad))
